@@ -27,7 +27,10 @@ type concWorld struct {
 }
 
 func newW1(t *testing.T, rc *RunCtx, cfg SchedCfg, plan *FaultPlan) *concWorld {
-	pop := StdPopulation(t)
+	return newW1Pop(t, rc, cfg, plan, StdPopulation(t))
+}
+
+func newW1Pop(t *testing.T, rc *RunCtx, cfg SchedCfg, plan *FaultPlan, pop *Population) *concWorld {
 	s := NewSched(rc, cfg)
 	s.KeyName = pop.KeyName
 	inst, err := NewInstance(s, "i0", InstCfg{Dir: NewRunDir(t), Pop: pop, Permissions: FullPermissions("client1", "client2"), AdminIPs: []string{"10.0.0.1"}, Plan: plan})
@@ -388,6 +391,39 @@ func runConc(t *testing.T, rc *RunCtx, prop string) {
 	prev := runtime.GOMAXPROCS(procs)
 	defer runtime.GOMAXPROCS(prev)
 	ops := genConcOps(rc, nKeys, nOps, true)
+	// One run in twelve is a bulk run: a batch naming 130-260 keys of a large wallet, with one to three single
+	// requests for keys inside it that conflict with the batch's entries (same target, other data), all in flight
+	// together.  Whatever a ruler does for large requests, a key is still handled by one request at a time.
+	bulk := ch.Pick(12, 0) == 11
+	pop := StdPopulation(t)
+	var drainKeys []int
+	if bulk {
+		pop = BigPopulation(t)
+		size := 130 + ch.Pick(131, 0)
+		start := ch.Pick(len(pop.Accts)-size, 0)
+		big := &Op{Kind: "atts", Client: "client1"}
+		for i := 0; i < size; i++ {
+			big.Entries = append(big.Entries, AttEntry(start+i, 1, 2, uint64(1000+i)))
+		}
+		ops = []*Op{big}
+		for i, n := 0, 1+ch.Pick(3, 0); i < n; i++ {
+			e := AttEntry(start+ch.Pick(size, 0), uint64(ch.Pick(2, 0)), 2, uint64(5000+i))
+			e.ByKey = ch.Pick(2, 0) == 1
+			ops = append(ops, &Op{Kind: "att", Client: "client2", Entries: []Entry{e}})
+		}
+		// the order in which they are submitted is drawn too
+		for i := len(ops) - 1; i > 0; i-- {
+			j := ch.Pick(i+1, 0)
+			ops[i], ops[j] = ops[j], ops[i]
+		}
+		drainKeys = []int{start, start + size - 1, big.Entries[size/2].Acct}
+		rc.Stats.Inc("bulk_runs", 1)
+	}
+	if drainKeys == nil {
+		for k := 0; k < nKeys; k++ {
+			drainKeys = append(drainKeys, k)
+		}
+	}
 	budget := 0
 	for _, o := range ops {
 		budget += 14 + 8*len(o.Entries)
@@ -414,7 +450,7 @@ func runConc(t *testing.T, rc *RunCtx, prop string) {
 	if abandon {
 		cfg.Action = func(s *Sched, parked []*Park) bool { return w.abandonOne(s) }
 	}
-	w = newW1(t, rc, cfg, nil)
+	w = newW1Pop(t, rc, cfg, nil, pop)
 	defer w.close()
 	w.abandon = abandon
 	w.submit(ops)
@@ -467,7 +503,7 @@ func runConc(t *testing.T, rc *RunCtx, prop string) {
 	{
 		var drain []*Op
 		all := &Op{Kind: "multi", Client: "client1"}
-		for k := 0; k < nKeys; k++ {
+		for _, k := range drainKeys {
 			drain = append(drain, &Op{Kind: "gen", Client: "client1", Entries: []Entry{GenEntry(k, MkDomain([4]byte{7, 0, 0, 0}, 1), uint64(900000+k))}})
 			all.Entries = append(all.Entries, GenEntry(k, MkDomain([4]byte{7, 0, 0, 0}, 2), uint64(910000+k)))
 		}
